@@ -467,20 +467,24 @@ func (e vErr) Error() string { return e.msg }
 // recovery function and returns normally; the default logs one error.
 func VerifC16Recover() {
 	kind := vLen("panickind", 0, 3)
-	custom := vLen("customrecover", 0, 1) == 1
+	// 0: the default recovery function; 1: a custom one configured before any handler is
+	// registered; 2: configured on Config() after the handlers (the built-in ones too) are registered
+	customWhen := vLen("customrecover", 0, 2)
+	custom := customWhen > 0
 	lg := &vLog{}
 	logging.SetLogger(lg)
 	conn := vNewConn(false)
 	var gotConn *Conn
 	var gotLine *Line
 	calls := 0
-	if custom {
-		conn.cfg.Recover = func(c *Conn, l *Line) {
-			if r := recover(); r != nil {
-				calls++
-				gotConn, gotLine = c, l
-			}
+	rec := func(c *Conn, l *Line) {
+		if r := recover(); r != nil {
+			calls++
+			gotConn, gotLine = c, l
 		}
+	}
+	if customWhen == 1 {
+		conn.cfg.Recover = rec
 	}
 	after := 0
 	conn.HandleFunc("ev", func(c *Conn, l *Line) {
@@ -498,6 +502,9 @@ func VerifC16Recover() {
 	})
 	conn.HandleFunc("ev", func(c *Conn, l *Line) { after++ })
 	conn.HandleFunc("next", func(c *Conn, l *Line) { after++ })
+	if customWhen == 2 {
+		conn.Config().Recover = rec
+	}
 	line := &Line{Cmd: "EV", Raw: "EV"}
 	escaped := vPanics(func() { conn.dispatch(line); vRunPending() })
 	vAssert(!escaped, "handle-returns-normally")
@@ -506,12 +513,29 @@ func VerifC16Recover() {
 	} else {
 		vAssert(lg.errors >= 1, "default-logs-an-error")
 	}
-	// a built-in handler panicking on a malformed line is recovered as well
+	// the same handler panics again for the next event: handed over / logged again
+	errs1 := lg.errors
+	escaped = vPanics(func() { conn.dispatch(&Line{Cmd: "EV", Raw: "EV"}); vRunPending() })
+	vAssert(!escaped, "handle-returns-normally")
+	if custom {
+		vAssert(calls == 2, "every-panic-handed-to-the-configured-recover")
+	} else {
+		vAssert(lg.errors >= errs1+1, "default-logs-every-panic")
+	}
+	// a built-in handler panicking on a malformed line is recovered as well, by the same function
+	errs2 := lg.errors
 	escaped = vPanics(func() { conn.dispatch(ParseLine("PING")); vRunPending() })
 	vAssert(!escaped, "builtin-handler-panic-recovered")
+	escaped = vPanics(func() { conn.dispatch(ParseLine("PING")); vRunPending() })
+	vAssert(!escaped, "builtin-handler-panic-recovered")
+	if custom {
+		vAssert(calls == 4, "every-panic-handed-to-the-configured-recover")
+	} else {
+		vAssert(lg.errors >= errs2+2, "default-logs-every-panic")
+	}
 	conn.dispatch(&Line{Cmd: "NEXT"})
 	vRunPending()
-	vAssert(after == 2, "later-handlers-still-run")
+	vAssert(after == 3, "later-handlers-still-run")
 	vReach("end")
 }
 
